@@ -16,6 +16,7 @@ CONSTANTS
   Params <- C_Params
   ParamAlts <- C_ParamAlts
   ParamGate <- SimParamGate
+  Gate <- SimGate
   Reactions <- C_Reactions
   WithRestart <- SimWithRestart
   Prs <- C_Prs
